@@ -241,10 +241,17 @@ class Gen:
         for _ in range(nloc):
             t = self.rand_ty(ncls)
             x = len(decl)
+            e = self.expr(t, env, 2)
+            kind = "decl"
+            if r.random() < 0.4:
+                # un-annotated definition: the local gets exactly the type of its initialiser
+                et = self.exact_type(e, env)
+                if et is not None and et != NONE:
+                    t, kind = et, "infer"
+                    self.stat("inferred-local")
             decl.append(t)
             fd.locals.append(t)
-            e = self.expr(t, env, 2)
-            stmts.append(("decl", x, e))
+            stmts.append((kind, x, e))
             env[x] = t
         self.protected = set()
         self.loop_depth = 0
@@ -392,7 +399,7 @@ class Gen:
         if k < 0.75:
             c = self.narrow_cond(env)
             if c is not None:
-                return c[0]
+                return ("not", c[0]) if c[0][0] == "var" else c[0]
         if k < 0.85:
             return ("not", self.bool_expr(env, depth - 1))
         strs = [x for x, t in env.items() if t == STR]
@@ -473,17 +480,24 @@ class Gen:
         if k < 0.15:
             self.stat("cond-not")
             return ("not", cond), ef, et
+        if cond[0] == "var":
+            # a truthiness test is only bool-typed under `not`; as an operand of and/or use `not not x`
+            if k < 0.5:
+                return cond, et, ef
+            cond = ("not", ("not", cond))
         if k < 0.4 and et is not None:
             c2 = self.narrow_cond(et)
             if c2 is not None and c2[1] is not None:
                 self.stat("cond-and")
+                c20 = ("not", ("not", c2[0])) if c2[0][0] == "var" else c2[0]
                 # false branch: only what both falsities agree on — fall back to the original env
-                return ("and", cond, c2[0]), c2[1], dict(env)
+                return ("and", cond, c20), c2[1], dict(env)
         if k < 0.55 and ef is not None:
             c2 = self.narrow_cond(ef)
             if c2 is not None and c2[2] is not None:
                 self.stat("cond-or")
-                return ("or", cond, c2[0]), dict(env), c2[2]
+                c20 = ("not", ("not", c2[0])) if c2[0][0] == "var" else c2[0]
+                return ("or", cond, c20), dict(env), c2[2]
         if k < 0.65 and et is not None:
             self.stat("cond-and-opaque")
             ints = [x for x, t in env.items() if t == INT]
@@ -656,6 +670,33 @@ class Gen:
         if e[0] == "boolLit": return BOOL
         return bound
 
+    def exact_type(self, e, env):
+        """the static type of e where it is certain (used at the top of a body, before any narrowing), else None"""
+        t = e[0]
+        if t == "var": return env.get(e[1]) if env.get(e[1]) == self.decl[e[1]] else None
+        if t == "new": return (C(e[1]),)
+        if t == "intLit": return INT
+        if t == "strLit": return STR
+        if t in ("boolLit", "isinst", "isNone", "not", "eq", "lt"): return BOOL
+        if t == "sub": return INT
+        if t == "add":
+            a = self.exact_type(e[1], env)
+            return None if a is None else (STR if a == STR else INT)
+        if t == "callF": return self.all_funcs[e[1]].ret
+        if t == "attr" and e[1][0] == "var":
+            tx = env.get(e[1][1])
+            if tx is None or tx != self.decl[e[1][1]]:
+                return None
+            got = [ty for f, ty in self.common_attrs(tx) if f == e[2]]
+            return got[0] if got else None
+        if t == "callM" and e[1][0] == "var":
+            tx = env.get(e[1][1])
+            if tx is None or tx != self.decl[e[1][1]] or len(tx) != 1:
+                return None
+            fd = self.h.meth(tx[0][1], e[2])
+            return fd.ret if fd is not None else None
+        return None
+
     def loop(self, env, depth):
         """`while <guard> and not (i == lim): i = i + 1; body` — always terminates"""
         r = self.r
@@ -674,7 +715,8 @@ class Gen:
         if r.random() < 0.5:
             c = self.narrow_cond(base_env)
             if c is not None and c[1] is not None:
-                cond, et = ("and", c[0], counter), c[1]
+                c0 = ("not", ("not", c[0])) if c[0][0] == "var" else c[0]
+                cond, et = ("and", c0, counter), c[1]
                 self.stat("loop-narrowing-guard")
         pre, post = [], []
         carried = [x for x in env if x not in self.protected and not (self.self_cls is not None and x == 0)
@@ -719,6 +761,30 @@ class Gen:
             fd = Func(params, [], ret, None)
             self.gen_body(fd, None, list(range(i)))
             funcs.append(fd)
+        # alias wrappers: one object passed for two parameters (attribute writes through one are seen through the other)
+        for i in range(nf):
+            fd = funcs[i]
+            if r.random() < 0.5:
+                continue
+            pairs = [(a, b) for a in range(len(fd.params)) for b in range(a + 1, len(fd.params))]
+            r.shuffle(pairs)
+            for a, b in pairs:
+                both = [k for k in range(ncls) if self.h.sub_ty((C(k),), fd.params[a]) and self.h.sub_ty((C(k),), fd.params[b])]
+                if not both:
+                    continue
+                k = r.choice(both)
+                ps = [(C(k),)] + [t for j, t in enumerate(fd.params) if j not in (a, b)]
+                args, nxt = [], 1
+                for j in range(len(fd.params)):
+                    if j in (a, b):
+                        args.append(("var", 0))
+                    else:
+                        args.append(("var", nxt)); nxt += 1
+                call = ("callF", i, args)
+                body = ("expr", call) if fd.ret == NONE else ("ret", call)
+                funcs.append(Func(ps, [], fd.ret, body))
+                self.stat("alias-wrapper")
+                break
         p = Prog(classes, funcs)
         calls = []
         for i, fd in enumerate(funcs):
@@ -738,7 +804,7 @@ class Gen:
 
 def assigned_vars(s) -> set:
     t = s[0]
-    if t in ("assign", "decl"):
+    if t in ("assign", "decl", "infer"):
         return {s[1]}
     if t == "ite":
         return assigned_vars(s[2]) | assigned_vars(s[3])
@@ -760,7 +826,7 @@ def map_stmt(s, fe, fs):
         r = ("ite", fe(s[1]), map_stmt(s[2], fe, fs), map_stmt(s[3], fe, fs))
     elif t == "while":
         r = ("while", fe(s[1]), map_stmt(s[2], fe, fs))
-    elif t in ("decl", "assign"):
+    elif t in ("decl", "assign", "infer"):
         r = (t, s[1], fe(s[2]))
     elif t == "setAttr":
         r = (t, fe(s[1]), s[2], fe(s[3]))
@@ -818,7 +884,8 @@ def perturb(p: Prog, rng):
     """one ill-typing edit; returns (new program, description) or None"""
     import copy
     q = copy.deepcopy(p)
-    kinds = ["drop-guard", "swap-lit", "widen-param", "swap-args", "ret-type", "attr-type", "none-arg", "drop-init"]
+    kinds = ["drop-guard", "swap-lit", "widen-param", "swap-args", "ret-type", "attr-type", "none-arg", "drop-init",
+             "narrow-override", "cond-drop-left"]
     rng.shuffle(kinds)
     for kind in kinds:
         if kind == "drop-guard":
@@ -914,6 +981,44 @@ def perturb(p: Prog, rng):
                         args = list(e[-1])
                         args[rng.randrange(len(args))] = ("noneLit",)
                         return e[:-1] + (args,)
+                return e
+            for fd in all_bodies(q):
+                fd.body = map_stmt(fd.body, lambda e: map_expr(e, f), lambda s: s)
+            return q, kind
+        if kind == "narrow-override":
+            # an overriding method takes less than the method it overrides (argument types are contravariant)
+            sites = []
+            for c, cd in enumerate(q.classes):
+                if cd.base is None:
+                    continue
+                inherited = set()
+                for k in q.classes[cd.base].mro:
+                    inherited |= {m for m, _ in q.classes[k].methods}
+                for m, fd in cd.methods:
+                    for i, t in enumerate(fd.params):
+                        if m in inherited and (len(t) > 1 or t == (B,)):
+                            sites.append((fd, i))
+            if not sites:
+                continue
+            fd, i = rng.choice(sites)
+            t = fd.params[i]
+            fd.params[i] = (t[0],) if len(t) > 1 else (I,)
+            if fd.params[i] == t:
+                continue
+            return q, kind
+        if kind == "cond-drop-left":
+            pe = lambda e: e[0] == "and" and e[1][0] in ("isNone", "isinst", "var", "not")
+            sites = count_sites(q, pe, lambda s: False)
+            if not sites:
+                continue
+            target = rng.randrange(sites)
+            n = [0]
+
+            def f(e):
+                if pe(e):
+                    n[0] += 1
+                    if n[0] - 1 == target:
+                        return e[2]
                 return e
             for fd in all_bodies(q):
                 fd.body = map_stmt(fd.body, lambda e: map_expr(e, f), lambda s: s)
